@@ -855,6 +855,8 @@ class _Dict(Ty):
             return ValSort.dv(v.t)
         if isinstance(v, VRec) and v.ty.as_dict and not getattr(v.ty, "optkeys", False):
             return recdict_term(v)
+        if isinstance(v, VConst) and isinstance(v.py, dict):
+            return ValSort.dv(to_val(v))  # a constant dict (module-level table)
         if not isinstance(v, VDict):
             raise Unsupported(f"cannot pack {v} as Dict")
         return v.t
